@@ -9,7 +9,7 @@ from engine import boolalg
 from engine.cfg import CFG, EXIT
 from engine.consteval import ConstEval, NotConstant
 from engine.dataflow import ReachingDefs, backward_slice_exprs
-from engine.absint import AbsObj, BoundRepoMethods, ModuleEnv, Term
+from engine.absint import AbsObj, BoundRepoMethods, ModuleEnv, Oracle, Term, explore
 from engine.pyinterp import Function, Interp, InterpRaised, Stub, StubCall, Unsupported
 from engine.index import AnalysisError, ClassInfo, FuncInfo, calls_in, const_str, is_self_attr, kwarg, unparse, walk_no_nested
 from rules.common import BILLING_DATA, DAILY_DATA, HOURLY_DATA
@@ -529,7 +529,6 @@ def run(chk):
         r2.inst(f"predicate|{q}|fraction-definition")
     # -- monthly coverage: (per-month notna().mean() of column) < 0.9 .any()
     MON = {P + "missing_monthly_temperature_data": "temperature", P + "missing_monthly_meter_data": "observed", P + "missing_monthly_ghi_data": "ghi"}
-    from engine.absint import Oracle, explore
     for q, col in MON.items():
         s = site_for(q)
         if s is None:
@@ -598,50 +597,81 @@ def run(chk):
     r2.require(not bad, "predicate|incorrect_number_of_total_days|329..365", fi.where(),
                f"baseline span criterion must fire iff n_days_total > 365 (baseline only) or n_days_total < 329 (= ceil(0.9*365)); deviations: {bad[:3]}",
                sample={"criterion": "span", "cases": 18})
-    # -- negative usage
-    s = site_for(P + "negative_meter_values")
+    # -- negative usage and no data: interpreted on a recording frame; the data-dependent decisions are read off as terms
+    def criterion_paths(fi_, owner_, rep, elec, cols):
+        oracle = Oracle()
+
+        def run():
+            it = Interp(step_limit=50_000)
+            stand = {"EEMeterWarning": StubCall(lambda **k: _W(**k))}
+            me = _Crit({owner_.name, "SufficiencyCriteria"}, disqualification=[], warnings=[], is_reporting_data=rep, is_electricity_data=elec, data=CFrame(cols, oracle))
+            me._bind_repo(chk, owner_, it, stand)
+            try:
+                Function(fi_.node, ModuleEnv(chk.repo, fi_.module, it, stand), it)(me)
+            except InterpRaised as e:
+                return {"raises": e.exc_name}
+            return {"dq": [w.qualified_name for w in me.disqualification], "warn": [w.qualified_name for w in me.warnings]}
+        try:
+            return explore(run, oracle)
+        except Unsupported as e:
+            raise AnalysisError(f"{fi_.key}: uses an operation outside the modelled subset: {e}")
+
+    NEG = "lt(col:observed, 0)"
+    COUNTS = {f"size(take(col:observed, {NEG}))", f"count(take(col:observed, {NEG}))", f"sum({NEG})", f"sum(astype({NEG}, 'int'))", f"size(col:observed@rows[{NEG}])",
+              f"count(col:observed@rows[{NEG}])", f"len(frame@rows[{NEG}])"}
+    POSITIVE = {f"gt({c}, 0)" for c in COUNTS} | {f"ge({c}, 1)" for c in COUNTS} | {f"not(eq({c}, 0))" for c in COUNTS} | {f"any({NEG})"}
+    ZERO = {f"eq({c}, 0)" for c in COUNTS} | {f"le({c}, 0)" for c in COUNTS} | {f"lt({c}, 1)" for c in COUNTS} | {f"not(any({NEG}))"}
+    q = P + "negative_meter_values"
+    s = site_for(q)
     if s is None:
         r2.require(False, "predicate|negative|site", base.module.rel, "no site for negative_meter_values")
     else:
-        fi, cfg, rd, gs = guards_of(s)
-        seen = {}
-        def atomizer(e):
-            z, neg = boolalg.strip_truthiness(e)
-            if unparse(z) == "self.is_reporting_data":
-                return ("rep", neg)
-            if unparse(z) == "self.is_electricity_data":
-                return ("elec", neg)
-            nc = _norm_compare(z)
-            if nc:
-                lhs, op, rhs = nc
-                try:
-                    thr = const_of(fi, rd, s["stmt"], rhs)
-                except Exception:
-                    return None
-                if (op == ">" and thr == 0) or (op == ">=" and thr == 1) or (op == "!=" and thr == 0):
-                    seen["count"] = lhs
-                    return ("anyneg", neg)
-            return None
-        ok = False
-        try:
-            tt = boolalg.conj_table(gs, atomizer, ["rep", "elec", "anyneg"])
-            ok = all(tt[(r_, e_, a_)] == ((not r_) and (not e_) and a_) for r_ in (False, True) for e_ in (False, True) for a_ in (False, True))
-        except boolalg.Unrecognised as e:
-            seen["unrecognised"] = str(e)
-        if ok and "count" in seen:
-            sl = " ".join(unparse(x) for x in backward_slice_exprs(rd, s["stmt"], ast.parse(seen["count"], mode="eval").body, 3))
-            ok = "self.data.observed < 0" in sl or "self.data['observed'] < 0" in sl
-            seen["count_def"] = sl[:120]
-        r2.require(ok, "predicate|negative_meter_values", fi.where(s["stmt"]),
-                   f"negative usage must disqualify iff baseline and not electricity and count(observed < 0) > 0; found {seen}", sample={"criterion": "negative usage", "found": seen})
-    # -- no data
-    s = site_for(P + "no_data")
+        fi = s["fi"]
+        bad = []
+        for rep in (False, True):
+            for elec in (False, True):
+                for trace, o in criterion_paths(fi, base, rep, elec, ["observed", "temperature", "temperature_null", "temperature_not_null"] if not rep else ["temperature", "temperature_null", "temperature_not_null"]):
+                    scen = f"reporting={rep}, electricity={elec}"
+                    if "raises" in o:
+                        bad.append((scen, o))
+                        continue
+                    fired = q in o["dq"]
+                    if rep or elec:
+                        if fired or o["dq"]:
+                            bad.append((scen, o["dq"]))
+                        continue
+                    tags = [t for t, v in trace]
+                    if len(tags) != 1 or tags[0] not in POSITIVE | ZERO:
+                        bad.append((scen, {"decides-on": tags}))
+                        continue
+                    negatives_present = trace[0][1] if tags[0] in POSITIVE else not trace[0][1]
+                    if fired != negatives_present or [x for x in o["dq"] if x != q]:
+                        bad.append((scen, {"negative readings present": negatives_present, "dq": o["dq"]}))
+        r2.require(not bad, "predicate|negative_meter_values", fi.where(s["stmt"]),
+                   f"negative usage must disqualify iff baseline and not electricity and the usage column holds a negative reading (count(observed < 0) > 0, on the usage column itself); deviations: {bad[:2]}",
+                   sample={"criterion": "negative usage"})
+    q = P + "no_data"
+    s = site_for(q)
     if s is None:
         r2.require(False, "predicate|no_data|site", base.module.rel, "no site for no_data")
     else:
-        fi, cfg, rd, gs = guards_of(s)
-        ok = len(gs) == 1 and gs[0][1] is True and unparse(gs[0][0]) in ("self.data.dropna().empty", "self.data.dropna(how='all').empty", "len(self.data.dropna()) == 0", "self.data.empty or self.data.dropna().empty")
-        r2.require(ok, "predicate|no_data", fi.where(s["stmt"]), f"no_data must fire iff the data has no complete row; found {[ (unparse(t), p) for t, p in gs]}")
+        fi = s["fi"]
+        EMPTY = {"empty(frame@dropna())": True, "empty(frame)": True, "eq(len(frame@dropna()), 0)": True, "not(len(frame@dropna()))": True, "gt(len(frame@dropna()), 0)": False,
+                 "empty(frame@dropna(how='any'))": True}
+        bad = []
+        for rep in (False, True):
+            for trace, o in criterion_paths(fi, base, rep, False, ["observed", "temperature"]):
+                if "raises" in o:
+                    bad.append((f"reporting={rep}", o))
+                    continue
+                tags = [t for t, v in trace]
+                if not tags or any(t not in EMPTY for t in tags):
+                    bad.append((f"reporting={rep}", {"decides-on": tags}))
+                    continue
+                no_rows = any(v == EMPTY[t] for t, v in trace if t != "empty(frame)") or any(v for t, v in trace if t == "empty(frame)")
+                if (q in o["dq"]) != no_rows or [x for x in o["dq"] if x != q]:
+                    bad.append((f"reporting={rep}", {"no complete row": no_rows, "dq": o["dq"]}))
+        r2.require(not bad, "predicate|no_data", fi.where(s["stmt"]), f"no_data must fire iff the data has no complete row (data.dropna() is empty); deviations: {bad[:2]}")
     # -- valid temperature rows use the per-period hourly coverage threshold strictly above 0.9? (definition, structural)
     cv = base.methods.get("_compute_valid_meter_temperature_days")
     if cv is None:
